@@ -69,6 +69,18 @@ CLAIMS = {
         technique="TLA+ spec + TLC (exhaustive + simulation), every transition replayed on the implementation",
         design_ref="6/C12",
     ),
+    "C13": dict(
+        engine="sequential-specs",
+        level="model_checking",
+        text="specs/pool/PoolScope.tla models show/get/set/unset and the root operations as 'which sources are contacted, in which order, "
+             "what moves', with scope classification and proximity order transcribed from get_source_scope/get_sources; TLC checks "
+             "contacts-permitted, closest-only, all-mirrors, show-soundness, download-only-if-differs and refusal-without-local over every "
+             "pool_scope subset x location list (kinds = gateway x host x path) x placement x cache validity. Every transition is executed on "
+             "subclasses of the real backends with stub transport/local backend; contacted sources in order, result and placement compared",
+        note="remote transport (ssh/scp) stubbed (no network); one state name and one image; show's mirror combination modelled as coded",
+        technique="TLA+ spec + TLC exhaustive enumeration, every transition replayed on the implementation",
+        design_ref="6/C13",
+    ),
 }
 
 NOT_YET = "machinery for this property is not built yet in this revision (see DESIGN.md section 9 build order)"
